@@ -378,3 +378,8 @@ def replay(clause, case, col):
         return
     v = eval(case["value"], dict(_NS))  # noqa: S307
     check_scalar(case["type"], v, col, warm=case.get("warm", False))
+
+
+def cg_plan(seed):
+    """coverage-guided shards of the thorough tier (harness/cg.py): same strategies and check functions, choices from libFuzzer"""
+    return [{"kind": "scalar" if k < 3 else "numeric", "seed": seed * 1000 + 900 + k, "n": 0, "cg": {"runs": 100000}} for k in range(4)]
